@@ -6,7 +6,7 @@ import warnings
 import pyarrow as pa
 
 from drivers import _wire2_req as R
-from drivers._wire2_live import Live, pairs, split_streams
+from drivers._wire2_live import Live, ProcLive, pairs, split_streams
 from drivers import _wire2_tlc as table
 from vf import world
 from vf.core import Ctx
@@ -146,7 +146,8 @@ class Conns:
             self.drop(key)
             lv = None
         if lv is None:
-            lv = Live(self.servers[wn][0], self.pairs[tr], "pipe" if tr == "shmpipe" else tr)
+            lv = (ProcLive(wn) if tr == "subprocess" else
+                  Live(self.servers[wn][0], self.pairs[tr], "pipe" if tr == "shmpipe" else tr))
             self.live[key] = lv
             self.count[key] = 0
         reused = self.count[key] > 0
@@ -375,12 +376,19 @@ def _run_requests(ctx: Ctx, cases, segs, servers, conns: Conns, obs: list) -> No
         else:
             plan = [("Ve", "pipe", 0), ("Ve", "pipe", 1), ("Ve", "unix", 2), ("Ve", "pipe", 3), ("Ve", "tcp", 4),
                     ("Ve", "shmpipe", 5)]
+        if case["ptr"] == "mismatch":
+            # such bytes can take the whole server process down: only ever sent to a server in a child process
+            plan = [("Ve", "subprocess", j) for j in range(1 if nfaults >= 2 else 4)]
+        elif nfaults <= 1:
+            plan.append(("Ve", "subprocess", 6))        # the stdio entry point (serve_stdio) as shipped
         if case["pv"] != "ok":
             plan.append(("ve", "pipe", 4))
         if case["loc"] != "absent":
             plan += [("VE", "pipe", 5), ("VE", "pipe", 6), ("vE", "unix", 7)] if nfaults <= 2 else [("VE", "pipe", 5)]
-        if not quick and nfaults <= 2:
+        if not quick and nfaults <= 2 and case["ptr"] != "mismatch":
             plan += [("Ve", "pipe", 8 + j) for j in range(3 if nfaults <= 1 else 1)] + [("Ve", "unix", 11)]
+        if case["ptr"] == "mismatch":
+            plan = [(wn_, "subprocess", v_) for wn_, _tr, v_ in plan]
         for wn, tr, v in plan:
             script = exp[wn]["script"]
             if script == "na":
